@@ -312,7 +312,7 @@ func (s *vrSystem) state() map[string]string {
 		st["peers "+name] = strings.Join(sets.List(s.c.bgpPeersFetcher(name)), ",")
 		st["announced "+name] = fmt.Sprintf("bgp=%v l2=%v ips=%v", s.c.announced[config.BGP][name], s.c.announced[config.Layer2][name], s.c.svcIPs[name])
 	}
-	rc := s.ann.VerifRefcnt()
+	rc, _ := s.ann.VerifRefcnt() // absent on a tree with another representation: the black-box state below remains
 	var ks []string
 	for k, v := range rc {
 		if v != 0 {
